@@ -1,6 +1,7 @@
 """bounded run-time check of C02 against the compiled kernels themselves (the deductive proof reads the .pyx text; this runner executes
 the .so): centre and subpixel masks of every maskable class equal the fraction of member sample centres, computed here independently
 with numpy from the definition (n x n regular sample centres per pixel; membership from spec/geometry.py, even-odd rule for polygons).
+no member pixel centre lies outside the mask grid (searched in a frame as wide as the grid around it).
 bound: seeded regions of 7 classes x modes {center, subpixels n in 1, 2, 3, 5, 33, 64} x include {absent, False}; sample points closer
 than 1e-9 to the boundary are tolerated (one sample's weight per such point)."""
 import sys
@@ -56,7 +57,27 @@ def expected_mask(r, bbox, n):
     return cnt, slack
 
 
+def members_outside(r, bbox):
+    """pixel centres that are members although they lie outside the mask grid (searched in a frame around it as wide as the grid)"""
+    ny, nx = bbox.shape
+    pad = max(nx, ny) + 2
+    xs = np.arange(bbox.ixmin - pad, bbox.ixmax + pad, dtype=float)
+    ys = np.arange(bbox.iymin - pad, bbox.iymax + pad, dtype=float)
+    X, Y = np.meshgrid(xs, ys)
+    ins, near = member_grid(r, X, Y)
+    out = (X < bbox.ixmin) | (X >= bbox.ixmax) | (Y < bbox.iymin) | (Y >= bbox.iymax)
+    bad = ins & ~near & out
+    return [(X[j, i], Y[j, i]) for j, i in np.argwhere(bad)[:3]]
+
+
 def check(res, r, desc):
+    if r.bounding_box.shape[0] * r.bounding_box.shape[1] < 40_000:
+        m0 = r.to_mask(mode='center')
+        res.case((type(r).__name__, 'outside'))
+        lost = members_outside(r, m0.bbox)
+        if lost:
+            return res.violation(f'pixel centres {lost} are members of the region but lie outside the mask grid {m0.bbox}: '
+                                 'mask.to_image() is 0 there', case=desc, region=str(r))
     for mode, n in (('center', 1), ('subpixels', 1), ('subpixels', 2), ('subpixels', 3), ('subpixels', 5), ('subpixels', 33), ('subpixels', 64)):
         if n * n * r.bounding_box.shape[0] * r.bounding_box.shape[1] > 3_000_000:
             continue                # the reference array would not fit comfortably: large regions get the smaller n only
